@@ -544,6 +544,8 @@ SEEDS = [
     'Y = A[0] + B[-1]\nZ = {g}*Y',
     'Y{[é]} = X',
     'X{.1}=Y',
+    'Household_consumption_total_real_2020_constant_prices = gross_domestic_product_at_market_prices_in_2020 * {average_propensity_to_consume_out_of_income}',
+    'A = B\r\nC = A + 1\r\n',
     'Y = A{.1} + B{!r} + C{:>3}',
     'Y = {a[0]} + {b.c}',
     'Y = X[] + Z[ ]',
